@@ -18,7 +18,7 @@ XSI == "xsi-uri"
 NONE == "<none>"
 Styles == {"prefix", "default", "none"}
 Prefixes == {"xtce", "foo"}
-Faults == {"none", "malformed", "unsupported", "badprefix"}
+Faults == {"none", "malformed", "unsupported", "badprefix", "latefail"}   \* latefail: an error in the container pass, after element lookups by name
 Requests == [doc : Docs, style : Styles, prefix : Prefixes, xsi : BOOLEAN, fault : Faults]
 
 VARIABLES gp, gm, phase, cur, last, n
@@ -52,9 +52,9 @@ ParseOk == /\ phase = "parse" /\ cur.fault # "malformed"
 SetPrefix == /\ phase = "setprefix" /\ gp' = PrefixArg(cur) /\ phase' = "setnsmap" /\ UNCHANGED <<gm, cur, last, n>>
 SetNsmap == /\ phase = "setnsmap" /\ gm' = NsmapOf(cur) /\ phase' = "lookups" /\ UNCHANGED <<gp, cur, last, n>>
 \* all element lookups of the three passes happen here; an unsupported element raises after the state was set
-LookupsFail == /\ phase = "lookups" /\ (Lookup(cur) # "found" \/ cur.fault = "unsupported")
+LookupsFail == /\ phase = "lookups" /\ (Lookup(cur) # "found" \/ cur.fault \in {"unsupported", "latefail"})
                /\ last' = [k |-> "failed", doc |-> cur.doc] /\ phase' = "idle" /\ UNCHANGED <<gp, gm, cur, n>>
-LookupsOk == /\ phase = "lookups" /\ Lookup(cur) = "found" /\ cur.fault # "unsupported"
+LookupsOk == /\ phase = "lookups" /\ Lookup(cur) = "found" /\ cur.fault \notin {"unsupported", "latefail"}
              /\ last' = [k |-> "loaded", doc |-> cur.doc] /\ phase' = "idle" /\ UNCHANGED <<gp, gm, cur, n>>
 
 StartAny == \E r \in Requests : Start(r)
